@@ -91,6 +91,8 @@ class State:
             elif d.kind() == z3.Z3_OP_AND:
                 for c in cond.children():
                     self._note_kinds(c)
+            elif d.kind() == z3.Z3_OP_OR and cond.num_args() == 1:
+                self._note_kinds(cond.arg(0))
             elif d.kind() == z3.Z3_OP_EQ:
                 a, b = cond.arg(0), cond.arg(1)
                 for x, y in ((a, b), (b, a)):
